@@ -323,7 +323,7 @@ CAT_DIMS = {  # case -> concatenation dimensions (negative), as seen from the ou
     "x_cat_of_cat": (-2, -1), "x_batchrepeat_cat": (-2,), "x_cat_batch_inner": (-3,), "cat_batch": ("first",),
 }
 NUM_BLOCKS = {"blockdiag": 2, "blockdiag3": 3, "blockinterleaved": 2, "blockinterleaved3": 3, "nest_blockdiag_toeplitz": 2, "x_blockdiag_kron": 2,
-              "x_blockinter_sum": 2, "x_sumbatch_blockdiag": 2, "x_constmul_blockinter": 3, "x_tri_of_blockdiag": 2}
+              "x_blockinter_sum": 2, "x_sumbatch_blockdiag": 2, "x_constmul_blockinter": 3}  # (x_tri_of_blockdiag: Triangular._getitem does not take the fast path)
 CHOL_CASES = ("chol_lower", "chol_upper")
 KNOWN_DEFECT_CASES = set(CAT_DIMS) | set(NUM_BLOCKS) | set(CHOL_CASES) | {"tperm"}
 CAT_PIECES = {  # case -> f(size of the cat dimension) = (piece sizes, indices of the pieces that are not DenseLinearOperators)
@@ -362,14 +362,14 @@ def trigger_of(torch, case, full, shape):
             size = shape[d]
             if d >= -2 and isinstance(a, int) and not absorbed:
                 a = as_slice(a)
-            if isinstance(a, slice) and a != FULL and a.step is None:
+            if isinstance(a, slice) and a != FULL and a.step is None and not absorbed:  # (absorbed: the slice is converted to a tensor first)
                 if (a.start is not None and a.start < -size) or (a.stop is not None and a.stop >= size):
                     return "cat_slice_mod_size"
             if d < -2 and isinstance(a, int) and a < 0:
                 return "cat_batch_dim_negative_int"
             if d < -2 and ist(a) and not absorbed and sum(1 for b in batch if ist(b)) >= 2:
                 return "cat_batch_dim_tensor+other_batch_tensor"
-            if d == -3 and any(isinstance(b, int) for b in batch):
+            if d == -3 and not absorbed and any(isinstance(b, int) for b in batch):
                 return "cat_dim-3_any_batch_int"
             if isinstance(a, int) and a < 0:
                 return "cat_negative_int"
